@@ -495,7 +495,7 @@ func bucket(n int) string {
 	}
 }
 
-func TestPropDump(t *testing.T) { hx.Check(t, 300, genCase, runCase) }
+func TestPropDump(t *testing.T) { hx.Check(t, 500, genCase, runCase) }
 
 func TestReplay(t *testing.T) { hx.Replay(t, "TestPropDump", 2, runCase) }
 
